@@ -8,5 +8,5 @@ Local Open Scope Z_scope.
 Theorem der_roundtrip :
   forall r s : Z, 0 <= r -> 0 <= s ->
   exists d, encode_dss r s = Ok d /\ (zlen d < 2 ^ 32 -> decode_dss d = Some (Z.to_N r, Z.to_N s)).
-Proof. intros r s Hr Hs. exists (der_sig (Z.to_N r) (Z.to_N s)). split; [unfold encode_dss; replace ((r <? 0) || (s <? 0)) with false by (symmetry; apply orb_false_iff; split; apply Z.ltb_ge; assumption); reflexivity | apply der_roundtrip_len]. Qed.
+Proof. exact der_roundtrip_lemma. Qed.
 Print Assumptions der_roundtrip.
